@@ -141,9 +141,9 @@ EXPLANATION = (
     'numbers before names for python-brace - so the whole output list, order included, is determined by the signatures).  '
     'Finding fixed in /repo: 56d8ddf (python-brace check_args raised TypeError when a numbered and a named argument were both missing).  Test level only: '
     'the tie of the hand model to the code (fmtcheck-unit / -lastint / -e2e streams), the brace parsers (inputs here), the extras of single-string '
-    'diagnostics beyond the prefix.  OUTSTANDING: nothing of the design list is missing; the constructive form of reorder_silent (an explicit '
-    '`numbered π items` rendering) is replaced by the stronger extensional hypothesis (same arguments at the same types, any order / multiplicity), '
-    'with concrete renderings as kernel-evaluated examples; template-only behaviour (msgid vs msgid_plural, python template tags, qt-plural) is '
+    'diagnostics beyond the prefix.  c_reorder_silent_numbered is the constructive form of reorder_silent: number every reference of an unnumbered '
+    'valid string (numberDirs: 1$, 2$, ... in fetch order, * widths and precisions included), let dst be any valid string whose directives are '
+    'those in some order => no tag.  OUTSTANDING: nothing of the design list is missing; template-only behaviour (msgid vs msgid_plural, python template tags, qt-plural) is '
     'modelled, streamed and covered by the nocrash theorems but has no iff theorem (the statement does not speak about templates).')
 
 if __name__ == '__main__':
